@@ -8,15 +8,6 @@ open Nx Nx.Prudp Nx.Chan Nx.Crypto
 /-- the packets handed to the transport by a step -/
 def emitted (r : R) : List Packet := r.outs.filterMap (fun o => match o with | .emit _ p _ => some p | _ => none)
 
-theorem rc4Apply_length : ∀ (x : Bytes) (st : Rc4), (rc4Apply st x).1.length = x.length := by
-  intro x
-  induction x with
-  | nil => intro st; rfl
-  | cons a r ih => intro st; simp only [rc4Apply, List.length_cons]; rw [ih]
-
-theorem rc4At_length (key : Bytes) (pos : Nat) (d : Bytes) : (rc4At key pos d).length = d.length := by
-  unfold rc4At; exact rc4Apply_length _ _
-
 /-- the sender-side state of substream `sub` the L2 sender tracks: next sequence id and encryption position -/
 structure SRel (c : Conn) (sub : Nat) (nextId encPos : Nat) : Prop where
   ctr : c.counters[sub]? = some nextId
